@@ -216,3 +216,36 @@ func c20NeedsTLS(c *an.Ctx, rule string) {
 		},
 	})
 }
+
+// c01JSONAllSections: the JSON encoding of a DoH response carries what the wire
+// encoding carries: DNSMsgToJSONMsg reads the answer, the authority and the
+// additional section of the message (the format it follows, Google's, has a
+// field for each).
+func c01JSONAllSections(c *an.Ctx, rule string) {
+	k := "dnsserver.DNSMsgToJSONMsg"
+	fn := c.Fn(k)
+	key := k + " converts every section of the response"
+	if fn == nil {
+		c.Und(rule, key, token.NoPos, "anchor not found")
+		return
+	}
+	c.Analysed(k)
+	read := map[string]bool{}
+	an.Instrs(fn, func(in ssa.Instruction) {
+		v, ok := in.(ssa.Value)
+		if !ok {
+			return
+		}
+		if typ, f, _, ok := an.FieldOf(v); ok && strings.HasSuffix(typ, "dns.Msg") {
+			read[f] = true
+		}
+	})
+	var missing []string
+	for _, f := range []string{"Question", "Answer", "Ns", "Extra"} {
+		if !read[f] {
+			missing = append(missing, f)
+		}
+	}
+	c.Check(len(missing) == 0, rule, key, fn.Pos(), "question, answer, authority and additional sections are all read",
+		"the section(s) "+strings.Join(missing, ", ")+" of the response are never read: over the JSON API a client does not get the records the pipeline produced there (the SOA of a negative or blocked answer, a referral), which every other encoding delivers")
+}
